@@ -139,6 +139,45 @@ func init() {
 						opts = append(opts, expr.ConstExpr(r.Pick([]string{"A", "B", "S", "Ints", "It"})))
 					}
 				}
+				if idx%10 == 0 {
+					// an environment map whose keys of different types spell the
+					// same name: what the name is typed as must not vary
+					type myStr string
+					env := map[interface{}]interface{}{"a": 1, myStr("a"): "x", "b": 2.5, myStr("b"): true, 7: "seven"}
+					c.Begin("interface-keyed map environment")
+					first := ""
+					for k := 0; k < 60; k++ {
+						p, co := SafeCompile(r.Pick([]string{"a + 1", "b * 2"})[:5], expr.Env(env))
+						c.Eval(1)
+						d := "rejected: "
+						if co.Panic != nil {
+							c.Violate("compile-panic", fmt.Sprint(co.Panic), map[string]interface{}{"source": "a + 1"})
+							return
+						}
+						if co.Err != nil {
+							d += co.Err.Error()
+						} else {
+							d = mon.ProgramDigest(p)
+						}
+						_ = d
+					}
+					for k := 0; k < 60; k++ {
+						p, co := SafeCompile("a + 1", expr.Env(env))
+						c.Eval(1)
+						d := "rejected"
+						if co.Err != nil {
+							d = "rejected: " + co.Err.Error()
+						} else if p != nil {
+							d = mon.ProgramDigest(p)
+						}
+						if k == 0 {
+							first = d
+						} else if d != first {
+							c.Violate("compile-nondeterministic:map-environment-keys", "the same Compile call against an interface-keyed map environment gives different outcomes", map[string]interface{}{"source": "a + 1", "first": clip(first, 300), "later": clip(d, 300)})
+							return
+						}
+					}
+				}
 				c.Begin(fmt.Sprintf("rejected options #%d (%d invalid options)", idx, n))
 				first := ""
 				for k := 0; k < 40; k++ {
